@@ -23,7 +23,20 @@ def c02(ctx, spec):
     for d in (1, 2, 3, 4):
         ctx.run_sharded('c02_d%d' % d, n, args=['--maxext', 5, '--maxops', 5, '--walk', T(ctx, 30, 60)], shards=4)
 
+# ---------------------------------------------------------------------------------------------- C03
+def c03(ctx, spec):
+    ctx.build([dict(name='c03', src='harness/c03_alg.cpp', cfg='asan')])
+    n = T(ctx, 60000, 2400000)
+    ctx.run_sharded('c03', n, args=['--maxext', 6, '--vals', 4])
+    ctx.run_sharded('c03', n // 4, args=['--maxext', T(ctx, 7, 9), '--vals', 2], label='c03b')
+
 REGISTRY = {
+    'C03': dict(fn=c03, level='exploration',
+                rule='20 standard algorithms x {begin()/end() (proxy sub-views for D>1), elements()} x view families (whole, padded block, rotated, transposed block, strided rows/columns, column, row, diagonal, sub[i]; root D 1..3, sizes 0..9, values 0..3 with many duplicates); '
+                     'the same algorithm runs on a std::vector<vector<int>> model; contents are read back through raw root storage + table model; exact equality for fully specified algorithms, prefix-only for unique/remove, destination-only for move, '
+                     'spec postconditions (sorted/partitioned + permutation) for sort/partial_sort/nth_element/partition; complement of the view and read-only inputs unchanged; read-only two-range algorithms also get a second range that is a differently laid out view of the SAME root. '
+                     'distinct = hash(algorithm, range kind, family, D, rank, size class); non-trivial = range length >= 2',
+                assumptions=['libstdc++ algorithms on std::vector are the reference', 'int elements (proxy moves of non-trivial elements are covered by C05/C08)']),
     'C02': dict(fn=c02, level='exploration',
                 rule='views from random view programs (as C01); on each final view: random walks (30 steps quick / 60 thorough) over 3 iterator variables with integer position shadows for 4 iterator families '
                      '(begin()/end(), cbegin()/cend(), elements() mutable and const): ++ -- post++ post-- += -= =b+n =b-n assign copy compare [] inc-dec dec-inc; after EVERY step each dereferenceable variable is '
